@@ -93,4 +93,45 @@ theorem onRead_tie (isDNS : Opaque "net.Addr" → Bool) (now timeout : Nat) (c :
       | rfl
       | (simp [R, effOf, h1, h2, h3, h4, ha, lastSet_append_one]; done))
 
+
+/-! ### Histories of translated operations -/
+
+inductive COp
+  | write (addr : Opaque "net.Addr") (now : Nat)
+  | read (addr : Opaque "net.Addr") (now : Nat)
+
+def codeStep (isDNS : Opaque "net.Addr" → Bool) (c : Code.natconn) : COp → Option Code.natconn
+  | .write a now => Code.natconn.onWrite isDNS (now : Int) c a
+  | .read a now => Code.natconn.onRead isDNS (now : Int) c a
+
+def codeRun (isDNS : Opaque "net.Addr" → Bool) (c : Code.natconn) : List COp → Option Code.natconn
+  | [] => some c
+  | o :: os => (codeStep isDNS c o).bind (fun c' => codeRun isDNS c' os)
+
+def absOp (isDNS : Opaque "net.Addr" → Bool) : COp → Op
+  | .write a now => .write (isDNS a) now
+  | .read a now => .read (isDNS a) now
+
+/-- **every history of translated onWrite / onRead calls never panics and is simulated by the model's run** -/
+theorem codeRun_sim (isDNS : Opaque "net.Addr" → Bool) (timeout : Nat) :
+    ∀ (os : List COp) (c : Code.natconn) (s : S), R timeout c s →
+      ∃ c', codeRun isDNS c os = some c' ∧ R timeout c' (run timeout Gen.dnsTimeoutNs s (os.map (absOp isDNS))) := by
+  intro os
+  induction os with
+  | nil => intro c s h; exact ⟨c, rfl, h⟩
+  | cons o os ih =>
+    intro c s h
+    cases o with
+    | write a now =>
+      obtain ⟨c1, h1, h2, _⟩ := onWrite_tie isDNS now timeout c s a h
+      obtain ⟨c', h3, h4⟩ := ih c1 _ h2
+      exact ⟨c', by simp [codeRun, codeStep, h1, h3], by simpa [List.map_cons, run, step, absOp] using h4⟩
+    | read a now =>
+      obtain ⟨c1, h1, h2, _⟩ := onRead_tie isDNS now timeout c s a h
+      obtain ⟨c', h3, h4⟩ := ih c1 _ h2
+      exact ⟨c', by simp [codeRun, codeStep, h1, h3], by simpa [List.map_cons, run, step, absOp] using h4⟩
+
+theorem R_init (timeout : Nat) : R timeout { Code.natconn.zero with defaultTimeout := (timeout : Int) } init := by
+  simp [R, Code.natconn.zero, init, lastSet]
+
 end OutlineModel.Tie.NatConn
